@@ -163,11 +163,23 @@ pub fn evaluate(raw: &RawKey, other: &RawKey, sub: &Subject, c: &Case, all_order
     let Some(faulted) = apply(raw, other, &sub.store, tpe, &id, &c.fault) else { return Verdict::NotApplicable };
     let r = std::panic::catch_unwind(std::panic::AssertUnwindSafe(|| {
         let env = Env::from_store(faulted.clone());
-        match check_errors(&env, true) {
-            Err(_) => return Verdict::Detected,
-            Ok(e) if !e.is_empty() => return Verdict::Detected,
-            Ok(_) => {}
+        let clean_plain = matches!(check_errors(&env, true), Ok(e) if e.is_empty());
+        // the same check through a handle whose local cache was filled from the intact repository,
+        // trusting the cache: --read-data still promises that every pack is read from the repository
+        // (for faults in index and snapshot files a trusted cache hides the repository by design)
+        let clean_cached = tpe == FileType::Pack && {
+            let dir = scratch_dir();
+            vkit::fsx::restore_tree(&dir, &warm_cache(sub));
+            let mut cenv = Env::from_store(faulted.clone());
+            cenv.opts = vkit::rep::repo_opts().no_cache(false).cache_dir(dir.clone());
+            let r = cenv.open().and_then(|r| r.check(rustic_core::CheckOptions::default().read_data(true).trust_cache(true)));
+            _ = std::fs::remove_dir_all(&dir);
+            matches!(r, Ok(res) if vkit::rep::check_result_errors(&res).is_empty())
+        };
+        if !clean_plain && !clean_cached {
+            return Verdict::Detected;
         }
+        let which = if clean_plain { "" } else { "[check through a warm, trusted cache] " };
         let n_index = faulted.ids(FileType::Index).len();
         for (rot, rev) in listing_orders(n_index, all_orders) {
             // rotate the stored order of index files (listing = insertion order)
@@ -184,15 +196,15 @@ pub fn evaluate(raw: &RawKey, other: &RawKey, sub: &Subject, c: &Case, all_order
             // every snapshot the repository lists must restore to the source of its label (a deleted
             // snapshot file removes the snapshot itself: nothing is left that could fail to restore)
             match crate::c03::read_state_env(&env).map(|v| v.into_iter().map(|(_, l, r)| (l, r)).collect::<Vec<_>>()) {
-                Err(e) => return Verdict::Undetected(format!("listing order (rot {rot}, rev {rev}): {e}")),
+                Err(e) => return Verdict::Undetected(format!("{which}listing order (rot {rot}, rev {rev}): {e}")),
                 Ok(got) => {
                     for (l, r) in got {
                         match (r, sub.model.get(&l)) {
-                            (Err(e), _) => return Verdict::Undetected(format!("listing order (rot {rot}, rev {rev}): snapshot {l}: {e}")),
+                            (Err(e), _) => return Verdict::Undetected(format!("{which}listing order (rot {rot}, rev {rev}): snapshot {l}: {e}")),
                             (Ok(_), None) => return Verdict::Undetected(format!("a snapshot with the unknown label {l:?} is listed")),
                             (Ok(g), Some(t)) => {
                                 if let Some(d) = diff(t, &g) {
-                                    return Verdict::Undetected(format!("snapshot {l}: {d}"));
+                                    return Verdict::Undetected(format!("{which}snapshot {l}: {d}"));
                                 }
                             }
                         }
@@ -208,6 +220,30 @@ pub fn evaluate(raw: &RawKey, other: &RawKey, sub: &Subject, c: &Case, all_order
             e.downcast_ref::<String>().cloned().or_else(|| e.downcast_ref::<&str>().map(|s| (*s).to_string())).unwrap_or_default(),
         ),
     }
+}
+
+fn scratch_dir() -> std::path::PathBuf {
+    static N: std::sync::atomic::AtomicUsize = std::sync::atomic::AtomicUsize::new(0);
+    let base = if std::path::Path::new("/dev/shm").is_dir() { std::path::PathBuf::from("/dev/shm") } else { std::env::temp_dir() };
+    base.join(format!("vp-C05-{}-{}", std::process::id(), N.fetch_add(1, std::sync::atomic::Ordering::Relaxed)))
+}
+
+/// the cache a client holds after it checked and read the intact repository (index, snapshots, tree packs)
+fn warm_cache(sub: &Subject) -> std::sync::Arc<vkit::fsx::FsTree> {
+    static WARM: std::sync::Mutex<BTreeMap<&'static str, std::sync::Arc<vkit::fsx::FsTree>>> = std::sync::Mutex::new(BTreeMap::new());
+    let mut w = WARM.lock().unwrap_or_else(std::sync::PoisonError::into_inner);
+    if let Some(t) = w.get(sub.name) {
+        return t.clone();
+    }
+    let dir = scratch_dir();
+    let mut env = Env::from_store(sub.store.clone());
+    env.opts = vkit::rep::repo_opts().no_cache(false).cache_dir(dir.clone());
+    _ = env.open().and_then(|r| r.check(rustic_core::CheckOptions::default()));
+    _ = read_all(&env);
+    let t = std::sync::Arc::new(vkit::fsx::snapshot(&dir));
+    _ = std::fs::remove_dir_all(&dir);
+    _ = w.insert(sub.name, t.clone());
+    t
 }
 
 pub fn all_cases(raw: &RawKey, subs: &[Subject], dense: bool) -> Vec<Case> {
@@ -234,7 +270,7 @@ pub fn run(args: &Args, rep: &mut Report) {
     let other = RawKey::from_master(&other_master_key());
     std::panic::set_hook(Box::new(|_| {}));
     let subs = subjects();
-    rep.set_meta("rule", json!("7 repositories produced by real histories (fresh; two snapshots with the same time; after forget+prune with marked packs; after forget and a prune which keeps partly used packs; duplicate blobs via a stale handle; one-blob packs; repo version 1) x every stored file except config x {remove; truncate; flip; append 1/16/32 bytes; replace by each sibling of the same type; same plaintext under another key; index: duplicate / drop a pack entry, drop a blob entry}. quick: one bit per ciphertext byte and all 8 bits of nonces, MACs, pack headers, trailers; boundary truncation lengths. thorough: every bit and every truncation length of files <= 2 KiB. Non-trivial = distinct faults whose verdict is 'detected by check' (the fault is visible) - harmless ones are counted separately"));
+    rep.set_meta("rule", json!("7 repositories produced by real histories (fresh; two snapshots with the same time; after forget+prune with marked packs; after forget and a prune which keeps partly used packs; duplicate blobs via a stale handle; one-blob packs; repo version 1) x every stored file except config x {remove; truncate; flip; append 1/16/32 bytes; replace by each sibling of the same type; same plaintext under another key; index: duplicate / drop a pack entry, drop a blob entry}; for pack files check --read-data is also run through a handle with a warm local cache and --trust-cache (clean in either mode => everything must restore). quick: one bit per ciphertext byte and all 8 bits of nonces, MACs, pack headers, trailers; boundary truncation lengths. thorough: every bit and every truncation length of files <= 2 KiB. Non-trivial = distinct faults whose verdict is 'detected by check' (the fault is visible) - harmless ones are counted separately"));
     // the unfaulted subjects: check clean and everything restorable
     if args.shard == 0 && args.replay.is_none() {
         for s in &subs {
